@@ -140,26 +140,44 @@ async fn log_thread(
                 return Ok(());
             }
         };
+        // from here on the proxy is serving traffic: a log that can not be written (disk full, directory
+        // gone) costs log lines, never the process
         if let Some(e) = e {
             // a record the format script cannot render (it was only checked against an empty request when
             // the configuration was loaded) must not end the log task, let alone the process: log it as JSON
-            let mut line = match format.to_string(e.clone()) {
-                Ok(line) => line,
+            let line = match format.to_string(e.clone()) {
+                Ok(line) => Ok(line),
                 Err(err) => {
                     tracing::error!("access log format failed: {} cause: {:?}", err, err.cause);
-                    serde_json::to_string(&e).context("deserializer error")?
+                    serde_json::to_string(&e)
+                }
+            };
+            let mut line = match line {
+                Ok(line) => line,
+                Err(err) => {
+                    tracing::error!("access log record lost: {}", err);
+                    continue;
                 }
             };
             line += "\r\n";
-            stream
-                .write(line.as_bytes())
-                .await
-                .context("log write error")?;
+            if let Err(err) = stream.write_all(line.as_bytes()).await {
+                tracing::error!("access log write error, record lost: {}", err);
+            }
         } else {
             info!("log rotate");
-            stream.flush().await.context("flush")?;
-            stream.shutdown().await.context("shutdown")?;
-            stream = BufWriter::new(log_open(&path).await?);
+            if let Err(err) = stream.flush().await {
+                tracing::error!("access log flush error, records lost: {}", err);
+            }
+            match log_open(&path).await {
+                Ok(file) => {
+                    let _ = stream.shutdown().await;
+                    stream = BufWriter::new(file);
+                }
+                Err(err) => {
+                    // keep writing to the file that is open
+                    tracing::error!("access log reopen failed: {} cause: {:?}", err, err.cause);
+                }
+            }
         }
     }
 }
